@@ -4,6 +4,7 @@ from __future__ import annotations
 import ast
 import functools
 import itertools
+import operator
 import re
 import types
 
@@ -24,6 +25,10 @@ def call(I, fn, args, kwargs):
         return call_special(I, fn, args, kwargs)
     if I.is_repo_fn(fn):
         return I.call_function(fn, list(args), kwargs)
+    if isinstance(fn, operator.itemgetter) and len(args) == 1 and not kwargs:
+        keys = fn.__reduce__()[1]
+        vals = [I.index(args[0], k) for k in keys]
+        return vals[0] if len(vals) == 1 else tuple(vals)
     if isinstance(fn, functools._lru_cache_wrapper) and I.is_repo_fn(getattr(fn, "__wrapped__", None)):
         return lru_call(I, fn, list(args), kwargs)
     try:
